@@ -5,10 +5,14 @@
 From Coq Require Import List Arith Bool Sorted.
 Import ListNotations.
 From Verif Require Import BatchRPC.Model BatchRPC.Proofs BatchRPC.Proofs2 BatchRPC.Proofs3 BatchRPC.Proofs4 BatchRPC.Proofs5
-  BatchRPC.System BatchRPC.SysProofs BatchRPC.RunLoop BatchRPC.RunLoopProofs BatchRPC.Pool BatchRPC.Proofs6 BatchRPC.Gate BatchRPC.PropsLemmas.
+  BatchRPC.System BatchRPC.SysProofs BatchRPC.RunLoop BatchRPC.RunLoopProofs BatchRPC.Pool BatchRPC.Proofs6 BatchRPC.Gate BatchRPC.ProofsTop BatchRPC.ProofsIds BatchRPC.Round.
 
-(* ids: allocation order is strictly increasing, every id is allocated exactly once (also across stream
-   re-creation: no step lowers next_id), every id in the table was allocated to exactly that entry *)
+(* ids, CORE level: allocation order is strictly increasing, every id is allocated exactly once (also across stream
+   re-creation: no step lowers next_id), every id in the table was allocated to exactly that entry.  NOTE: in the core
+   the id of `Build c i` is a label parameter guarded by `next_id s < i` (an abstraction of the counter that allows gaps),
+   so the last conjunct reads that guard back; what is PROVED is that the guard plus "no step lowers next_id" keep the
+   log sorted / duplicate-free and the table inside the log in every reachable state.  The id being COMPUTED from the
+   counter is C18_ids_computed below (builder layer), and the acceptor checks the code's ids against it. *)
 Theorem C18_ids_fresh : forall s, reachable s ->
   StronglySorted newer (alloc s)
   /\ NoDup (map fst (alloc s))
@@ -90,11 +94,6 @@ Theorem C18_lost_cas_then_fail_pending : forall s h ep s1 ls s2 s3, reachable s 
 Proof. exact lost_cas_then_fail_pending. Qed.
 Print Assumptions C18_lost_cas_then_fail_pending.
 
-(* the id source survives a restart of the send loop (panic recovery keeps the batchConn's reqBuilder): Restart is a
-   step of the system, so C18_ids_fresh quantifies over runs containing it, and it changes nothing *)
-Theorem C18_restart_keeps_ids : forall s s', step s Restart = Some s' -> s' = s.
-Proof. exact restart_keeps_ids. Qed.
-Print Assumptions C18_restart_keeps_ids.
 
 (* a response is never put on the channel of an entry whose canceled flag was set when the dispatch read it *)
 Theorem C18_canceled_never_delivered : forall s l s' c p, reachable s -> step s l = Some s' ->
@@ -128,13 +127,6 @@ Theorem C18_canceled_before_build : forall s c ls s', reachable s ->
 Proof. exact canceled_before_build. Qed.
 Print Assumptions C18_canceled_before_build.
 
-(* a recv-loop panic (RecvPanic: while idle or between Load and deliver; FailPanic: at the start of
-   failPendingRequests) completes nothing and loses nothing, the restarted loop holds the current epoch *)
-Theorem C18_recv_panic_keeps_pending : forall s h s',
-  (step s (RecvPanic h) = Some s' \/ step s (FailPanic h) = Some s') ->
-  tab s' = tab s /\ ent s' = ent s /\ alloc s' = alloc s /\ loops s' h = LIdle (epoch s').
-Proof. exact C18_recv_panic_keeps_pending_l. Qed.
-Print Assumptions C18_recv_panic_keeps_pending.
 
 (* ... and every entry that was pending on that stream is completed exactly once in every continuation that reaches
    the next failure of the stream: at most one completion ever, and the ones still in flight get the stream error *)
@@ -155,7 +147,10 @@ Theorem C18_builder_layer_refines_core : forall x, xreach x -> reachable (core x
 Proof. exact xreach_core. Qed.
 Print Assumptions C18_builder_layer_refines_core.
 
-(* one call of buildWithLimit: only fetched entries are popped; whatever is left behind has no high priority and no
+(* one call of buildWithLimit.  NOTE: WHICH entries a round pops (`takes`) is a label parameter; the first two conjuncts
+   read the step guard `round_ok` back (the loop over the heap is not modelled as a function; the acceptor checks every
+   real round against that guard).  What is proved beyond the guard: the ids (third conjunct) are computed.
+   Only fetched entries are popped; whatever is left behind has no high priority and no
    priority above a popped entry; the popped, non-cancelled entries get exactly the next consecutive ids, in
    order; cancelled ones get none *)
 Theorem C18_build_round : forall x lim takes x', xstep x (XBuildRound lim takes) = Some x' ->
@@ -168,6 +163,56 @@ Theorem C18_build_round : forall x lim takes x', xstep x (XBuildRound lim takes)
       /\ (forall i c, In (i, c) ps -> In c takes /\ e_canceled (ent (core x) c) = false)).
 Proof. exact C18_build_round_l. Qed.
 Print Assumptions C18_build_round.
+
+(* buildWithLimit's LOOP as a function (Round.v: `for (count < limit && Len() > 0) || hasHighPriorityTask() { Take(n) }` over a
+   heap whose pop removes SOME element of maximal priority -- `pop` is a parameter with exactly that specification):
+   whatever the loop pops is a legal round of the model, for every limit and every duplicate-free builder -- the guards
+   round_ok / quota_ok of XBuildRound are not assumptions about the code's loop but consequences of its shape.  Nothing
+   of high priority and nothing above a popped entry stays behind; entries stay behind only once `lim` normal
+   non-cancelled entries were popped. *)
+Theorem C18_build_loop_legal : forall pr f pop,
+  (forall q, match pop q with
+             | None => q = []
+             | Some (c, q') => In c q /\ q' = remove_c c q /\ (forall r, In r q -> pr r <= pr c)
+             end) ->
+  forall lim q takes left, NoDup q -> build_with_limit pr f pop lim q = (takes, left) ->
+  round_ok pr q takes = true
+  /\ quota_ok (Some lim) f pr q takes = true
+  /\ NoDup takes /\ (forall c, In c q <-> In c takes \/ In c left) /\ (forall c, In c takes -> ~ In c left)
+  /\ (forall r, In r left -> pr r < high_pri /\ forall t, In t takes -> pr r <= pr t)
+  /\ (left = [] \/ lim <= counted f pr takes).
+Proof. exact build_with_limit_legal. Qed.
+Print Assumptions C18_build_loop_legal.
+
+(* ... and with a concrete pop (first element of maximal priority) the computed round is an ENABLED XBuildRound step of the
+   layer whenever the send loop is alive and ready and the builder is well-formed; it leaves exactly what the loop left *)
+Theorem C18_build_loop_is_round : forall x lim takes left, sendloop x = true -> ready x = true -> NoDup (inb x) ->
+  (forall c, In c (inb x) -> e_st (ent (core x) c) = Queued) ->
+  build_with_limit (pri x) (ent (core x)) (pop_max (pri x)) lim (inb x) = (takes, left) ->
+  exists x', xstep x (XBuildRound (Some lim) takes) = Some x'
+    /\ (forall c, In c (inb x') <-> In c left)
+    /\ (left = [] \/ lim <= counted (ent (core x)) (pri x) takes).
+Proof. exact build_loop_is_round. Qed.
+Print Assumptions C18_build_loop_is_round.
+
+(* ids, BUILDER layer: here no id is chosen by the environment.  `Build` is not a step of the layer; the only step that
+   allocates is a builder round, which numbers the popped non-cancelled entries next_id+1, next_id+2, .. (b.idAlloc++);
+   every other step leaves the allocation log alone.  Hence in every layer-reachable state: ids <= the counter, no id
+   allocated twice, no id twice in the in-flight table, the table inside the log. *)
+Theorem C18_ids_computed : forall x, xreach x ->
+  (forall l x', xstep x l = Some x' ->
+     alloc (core x') = alloc (core x)
+     \/ exists lim takes, l = XBuildRound lim takes
+          /\ (let ps := build_pairs (ent (core x)) (next_id (core x)) takes in
+              alloc (core x') = rev ps ++ alloc (core x)
+              /\ map fst ps = seq (S (next_id (core x))) (length ps)
+              /\ next_id (core x') = next_id (core x) + length ps))
+  /\ (forall i c, In (i, c) (alloc (core x)) -> i <= next_id (core x))
+  /\ NoDup (map fst (alloc (core x)))
+  /\ NoDup (map fst (tab (core x)))
+  /\ (forall i c, In (i, c) (tab (core x)) -> In (i, c) (alloc (core x))).
+Proof. exact ids_computed. Qed.
+Print Assumptions C18_ids_computed.
 
 (* buildWithLimit(limit) loses nothing: every entry that was in the builder is afterwards either popped-and-cancelled
    (retired, never sent), or popped and given an id (recorded in the allocation log; from there only Store / InitFail
@@ -186,7 +231,7 @@ Print Assumptions C18_round_nothing_lost.
 (* leftover entries are retried without a new arrival (fix 7ad2a8a).  They are never lost (C18_round_nothing_lost: what is
    not popped stays in the builder untouched).  Progress: whenever the send loop is alive and an entry sits in a
    well-formed builder, the wake-up step XWake is enabled -- no request has to arrive -- and after it a round that builds
-   the entry is enabled, under ANY limit (free capacity is not even needed for the step to be legal: the quota is soft;
+   the entry is enabled, under ANY limit (free capacity is not even needed for the step to be legal: the quota is soft -- the statement is for EVERY limit `lim`;
    in the code the round pops at least `available()` > 0 normal entries, which entry is the heap's choice).  Regression
    witness for the code before the fix: a waiting send loop builds nothing, and nothing but an arriving request or the
    wake-up makes it ready. *)
@@ -194,8 +239,8 @@ Theorem C18_leftover_retried :
   (forall x c, sendloop x = true -> NoDup (inb x) ->
      (forall c', In c' (inb x) -> e_st (ent (core x) c') = Queued) ->
      In c (inb x) -> e_canceled (ent (core x) c) = false ->
-     exists x1 x2 lim i, xstep x XWake = Some x1 /\ core x1 = core x /\ inb x1 = inb x
-       /\ xstep x1 (XBuildRound lim (inb x)) = Some x2 /\ e_st (ent (core x2) c) = Built i /\ inb x2 = [])
+     exists x1, xstep x XWake = Some x1 /\ core x1 = core x /\ inb x1 = inb x
+       /\ forall lim, exists x2 i, xstep x1 (XBuildRound lim (inb x)) = Some x2 /\ e_st (ent (core x2) c) = Built i /\ inb x2 = [])
   /\ (forall x l x', ready x = false -> xstep x l = Some x' -> l <> XWake -> (forall c, l <> XFetch c) ->
         ready x' = false /\ (forall lim takes, xstep x (XBuildRound lim takes) = None)).
 Proof. exact C18_leftover_retried_l. Qed.
@@ -364,33 +409,11 @@ Theorem C18_gate_wrapped_call : forall bg g,
 Proof. exact gate_wrapped_call. Qed.
 Print Assumptions C18_gate_wrapped_call.
 
-(* the RPC interceptor of the call's context: at most once per call, never for a refused call, exactly once around an
-   admitted synchronous call, never for an asynchronous call without an active controller (code as it is) *)
-Theorem C18_gate_interceptor_runs : forall bg g a,
-  icpt_runs bg g a <= 1
-  /\ (gate_admits bg g = false -> icpt_runs bg g a = 0)
-  /\ (gate_admits bg g = true -> icpt_runs bg g false = 1)
-  /\ (rc_active bg g = false -> icpt_runs bg g true = 0).
-Proof. exact icpt_runs_spec. Qed.
-Print Assumptions C18_gate_interceptor_runs.
 
-(* the priority a request is enqueued with: its own override priority if it has one, else the group's priority when a
-   controller is active for it (wrapper installed, group named, not a background group), else 0 *)
-Theorem C18_gate_priority : forall bg gp g,
-  (g_override g <> 0 -> gate_priority bg gp g = g_override g)
-  /\ (rc_active bg g = false -> gate_priority bg gp g = g_override g)
-  /\ (g_override g = 0 -> rc_active bg g = true -> gate_priority bg gp g = gp (g_group g))
-  /\ (g_rc g = false \/ g_group g = 0 \/ g_group g = bg -> rc_active bg g = false).
-Proof. exact gate_priority_spec. Qed.
-Print Assumptions C18_gate_priority.
 
 (* ---------------------------------------------------------------- non-vacuity *)
-Definition get (o : option state) : state := match o with Some s => s | None => init end.
 
 (* two callers on two streams, responses arrive in the opposite order, both return their own echo *)
-Definition ex_run1 : list label :=
-  [Submit 7 0; Submit 8 1; Build 7 1; Build 8 2; Store 7; Store 8;
-   RecvLoad 1 2 8; RecvFinish 1; RecvLoad 0 1 7; RecvFinish 0; Return 8; Return 7].
 Example ex1_runs : exists s, run init ex_run1 = Some s /\ e_ret (ent s 7) = Some (Resp 7)
   /\ e_ret (ent s 8) = Some (Resp 8) /\ tab s = [].
 Proof. eexists; split; [vm_compute; reflexivity|]. vm_compute. auto. Qed.
@@ -441,9 +464,6 @@ Proof. split; vm_compute; [reflexivity | discriminate]. Qed.
 
 (* a builder round: entries 1 (pri 0), 2 (pri 12), 3 (pri 5, cancelled) fetched; popping only {2} is a legal round,
    popping only {1} is not (a high-priority entry would stay behind); popping all skips the cancelled entry *)
-Definition xget (o : option sys) : sys := match o with Some x => x | None => xinit end.
-Definition ex_builder : list xlabel :=
-  [XSubmit 1 0 0 false; XSubmit 2 0 12 false; XSubmit 3 1 5 false; XCore (Abort 3 ECtx); XFetch 1; XFetch 2; XFetch 3].
 Example ex_round : let x := xget (xrun xinit ex_builder) in
   xstep x (XBuildRound (Some 0) [1]) = None /\ xstep x (XBuildRound (Some 0) [2]) <> None
   /\ xstep x (XBuildRound None [2]) = None /\ xstep x (XBuildRound (Some 1) [2; 3]) = None
@@ -478,11 +498,18 @@ Example ex_async_idle_exit : let x := xget (xrun xinit [XSubmit 1 0 0 true; XIdl
   /\ e_st (ent (core x) 1) = Retired.
 Proof. split; [exists [XSubmit 1 0 0 true; XIdleExit; XSubmit 2 0 0 true; XCore Close]; reflexivity|]. vm_compute. auto 10. Qed.
 
+(* the loop function on a builder with priorities 0,12,5,0,3 (callers 1..5), limit 2: Take(2) pops the high-priority entry 2 (not counted) and 3,
+   count = 1 < 2, so Take(2) again pops 5 and 1 (the loop overshoots by design: the quota is soft); 4 stays.  Limit 0 with a high-priority entry: only that one is popped. *)
+Example ex_build_loop : let pr := fun c => match c with 2 => 12 | 3 => 5 | 5 => 3 | _ => 0 end in
+  build_with_limit pr (fun _ => entry0) (pop_max pr) 2 [1; 2; 3; 4; 5] = ([2; 3; 5; 1], [4])
+  /\ build_with_limit pr (fun _ => entry0) (pop_max pr) 0 [1; 2; 3; 4; 5] = ([2], [1; 3; 4; 5])
+  /\ build_with_limit pr (fun _ => entry0) (pop_max pr) 9 [1; 2; 3] = ([2; 3; 1], []).
+Proof. vm_compute. auto. Qed.
+
 (* MIXED queue at the exit of the send loop (seed C18-10): sync 1, async 2, sync 3, async 4 sit in the channel in that order.
    Both exits fail BOTH async entries -- the drain is a filter over the whole channel, C18_async_never_orphaned quantifies
    over every member of an arbitrary queue, not over a prefix -- and leave the sync entries alone (their callers watch
    the closed signal / their timer themselves) *)
-Definition mixed_queue : list xlabel := [XSubmit 1 0 0 false; XSubmit 2 0 0 true; XSubmit 3 0 0 false; XSubmit 4 0 0 true].
 Example ex_mixed_queue_idle_exit : let x0 := xget (xrun xinit mixed_queue) in let x := xget (xrun xinit (mixed_queue ++ [XIdleExit])) in
   chq x0 = [4; 3; 2; 1] (* newest first: the sync entry 1 is the one the loop would receive first *) /\ xreach x /\ chq x = [] /\ e_comp (ent (core x) 2) = [Err EIdle] /\ e_comp (ent (core x) 4) = [Err EIdle]
   /\ e_comp (ent (core x) 1) = [] /\ e_st (ent (core x) 1) = Queued /\ e_comp (ent (core x) 3) = [] /\ e_st (ent (core x) 3) = Queued.
@@ -494,7 +521,6 @@ Example ex_mixed_queue_closed_exit : let x := xget (xrun xinit (mixed_queue ++ [
 Proof. split; [exists (mixed_queue ++ [XCore Close; XSendExit]); reflexivity|]. vm_compute. repeat split; eauto. Qed.
 
 (* pool: call 1 on connection 0 of generation 0, CloseAddr, call 2 goes to generation 1; call 1 returns the closed error *)
-Definition pget (o : option pstate) : pstate := match o with Some p => p | None => pinit end.
 Example ex_pool : let p := pget (prun pinit [PRoute 1 0 0; PCore 0 0 (Build 1 1); PCore 0 0 (Store 1); PCloseAddr; PRoute 2 1 0;
                                               PCore 0 0 (Abort 1 EClosed); PCore 1 1 (Build 2 1)]) in
   p_gen p = 1 /\ p_home p 1 = Some (0, 0) /\ p_home p 2 = Some (1, 1) /\ e_ret (ent (p_cl p 0 0) 1) = Some (Err EClosed)
